@@ -15,7 +15,7 @@ CONSTANTS MaxLen,
 C(m, n, s, l) == [m |-> m, n |-> n, s |-> s, l |-> l]     \* method, number, string, list argument
 
 Calls == {
-    C("with_name", 0, "a", <<>>), C("with_name", 0, "", <<>>),
+    C("with_name", 0, "a", <<>>), C("with_name", 0, "", <<>>), C("with_name", 0, " ", <<>>),
     C("with_reducer", 0, "r1", <<>>), C("with_reducers", 0, "", <<"r1", "r2">>), C("with_reducers", 0, "", <<>>),
     C("add_reducer", 0, "r3", <<>>), C("without_reducer", 0, "", <<>>),
     C("with_capacity", 0, "", <<>>), C("with_capacity", 1, "", <<>>), C("with_capacity", 2, "", <<>>),
@@ -29,8 +29,8 @@ Group(c) == CASE c.m = "with_name" -> "name"
               [] c.m = "with_policy" -> "policy"
               [] c.m \in {"with_middleware", "with_middlewares", "add_middleware"} -> "middlewares"
 
-VARIABLES cfg, seq
-vars == <<cfg, seq>>
+VARIABLES cfg, seq, start
+vars == <<cfg, seq, start>>
 
 Cfg0 == [name |-> "store", reds |-> <<>>, without |-> FALSE, cap |-> 16, pol |-> "block", mws |-> <<>>]   \* builder.rs:29-40
 
@@ -50,8 +50,11 @@ Apply(c, f) ==
 
 BuildOk(f) == ~((~f.without /\ f.reds = <<>>) \/ f.name = "" \/ f.cap = 0)                     \* l.139-148
 
-Init == cfg = Cfg0 /\ seq = <<>>
-Next == \E c \in Calls : Len(seq) < MaxLen /\ cfg' = Apply(c, cfg) /\ seq' = Append(seq, c)
+Cfg0r == [Cfg0 EXCEPT !.reds = <<"r0">>]                       \* StoreBuilder::new_with_reducer, builder.rs:42-56
+Init == /\ start \in {"new", "new_with_reducer"}
+        /\ cfg = IF start = "new" THEN Cfg0 ELSE Cfg0r
+        /\ seq = <<>>
+Next == \E c \in Calls : Len(seq) < MaxLen /\ cfg' = Apply(c, cfg) /\ seq' = Append(seq, c) /\ UNCHANGED start
 Spec == Init /\ [][Next]_vars
 
 (* C17 *)
@@ -66,7 +69,7 @@ C17_Append == /\ Apply(C("add_reducer", 0, "r3", <<>>), cfg).reds = Append(cfg.r
 (* the settings are exactly the last setting of each option: a record-of-last-settings replay of seq *)
 RECURSIVE Replay(_, _)
 Replay(s, f) == IF s = <<>> THEN f ELSE Replay(Tail(s), Apply(Head(s), f))
-C17_Record == cfg = Replay(seq, Cfg0)
+C17_Record == cfg = Replay(seq, IF start = "new" THEN Cfg0 ELSE Cfg0r)
 
-Emit == PrintT(<<"SEQ", ToJson([seq |-> seq, cfg |-> cfg, ok |-> BuildOk(cfg)])>>)
+Emit == PrintT(<<"SEQ", ToJson([start |-> start, seq |-> seq, cfg |-> cfg, ok |-> BuildOk(cfg)])>>)
 =============================================================================
